@@ -57,7 +57,8 @@ def gen(rng):
         if not ok: continue
         return {'s': s_, 'nw': nw, 'nf': nf, 'r': rng.choice(RMODES), 'o': rng.choice(OMODES), 'scale': scale, 'bias': bias, 'vs': vs, 'ts': ts,
                 'route': rng.choice(['ctor', 'call', 'set_val', 'ctor_like']), 'carrier': rng.choice(['float', 'int', 'int', 'npint', 'listint', 'np:uint8', 'np:int8', 'np:int16', 'np:uint16', 'np:uint32', 'np:uint64', 'np:float32', 'fxp', 'fxp']),
-                'pyint_params': rng.random() < 0.5}      # integral scale / bias passed as Python ints (not floats)
+                'pyint_params': rng.random() < 0.5,      # integral scale / bias passed as Python ints (not floats)
+                'np_params': rng.choice([None, None, None, 'float32', 'float16', 'float64'])}
 
 def jcase(c):
     return {k: (str(v) if isinstance(v, Fraction) else ([str(t) for t in v] if isinstance(v, list) else v)) for k, v in c.items()}
@@ -75,6 +76,10 @@ def run_cases(cases, res):
         if c.get('pyint_params'):
             if c['scale'].denominator == 1: kw['scale'] = int(c['scale'])
             if c['bias'].denominator == 1: kw['bias'] = int(c['bias'])
+        if c.get('np_params'):      # scale / bias handed over as NumPy floating scalars (when that type holds them exactly)
+            for k_ in ('scale', 'bias'):
+                t_ = getattr(np, c['np_params'])
+                if Fraction(float(t_(float(c[k_])))) == c[k_]: kw[k_] = t_(float(c[k_]))
         val = [float(v) for v in c['vs']]
         if c.get('carrier', 'float') != 'float' and all(v.denominator == 1 for v in c['vs']):
             ints = [int(v) for v in c['vs']]
@@ -103,13 +108,13 @@ def run_cases(cases, res):
                 x.reset()        # the initial value 0 is itself transformed and may raise flags at construction
                 if c['route'] == 'call': x(val)
                 else: x.set_val(val)
-            obs = {'codes': lib.codes_of(x), 'get': lib.vals_of(x.get_val()), 'upper': Fraction(x.upper), 'lower': Fraction(x.lower), 'prec': Fraction(x.precision),
+            obs = {'codes': lib.codes_of(x), 'get': lib.vals_of(x.get_val()), 'upper': Fraction(float(x.upper)), 'lower': Fraction(float(x.lower)), 'prec': Fraction(float(x.precision)),
                    'status': lib.status3(x)}
             # a raw write of the same codes, then a widening resize: the object keeps its scaling (reading, limits)
             x.set_val(np.array(obs['codes']) if len(obs['codes']) > 1 else obs['codes'][0], raw=True)
             obs['get_after_raw'] = lib.vals_of(x.get_val())
             x.resize(n_word=c['nw'] + 2)
-            obs['after_resize'] = (lib.codes_of(x), lib.vals_of(x.get_val()), Fraction(x.upper), Fraction(x.lower), Fraction(x.precision))
+            obs['after_resize'] = (lib.codes_of(x), lib.vals_of(x.get_val()), Fraction(float(x.upper)), Fraction(float(x.lower)), Fraction(float(x.precision)))
         except Exception as e:
             res.fail(jcase(c), 'C17: storing into a scaled object raised %s' % lib.exc_name(e), got=str(e)[:200]); continue
         pend.append((c, obs))
